@@ -352,11 +352,11 @@ def main(argv):
         evaluations += s["cases"]
         nontrivial += s["distinct_nontrivial"]
         oracle_runs += s.get("oracle_runs", 0)
-        samples += s["samples"][:4]
+        samples += (s.get("samples") or [])[:4]
         distribution[r["stream"]] = s.get("distribution", {})
         rules.append("%s: %s" % (r["stream"], s["rule"]))
         want = spec.get("signatures")  # which oracle signatures belong to this property (None = all)
-        for f in s["findings"]:
+        for f in (s.get("findings") or []):
             sig = f["signature"]
             if want is not None and not any(sig == w or sig.startswith(w + "/") or sig.startswith(w) for w in want):
                 continue
